@@ -64,8 +64,12 @@ func vmTouches(fn *vmFn, o vmBalanceOpts) bool {
 		case *ast.IncDecStmt:
 			g.add(vmEv{K: evIncDec, X: x.X, Tok: x.Tok})
 		case *ast.AssignStmt:
-			for _, l := range x.Lhs {
-				g.add(vmEv{K: evAssign, Lhs: l, Tok: x.Tok})
+			for i, l := range x.Lhs {
+				var rhs ast.Expr
+				if len(x.Lhs) == len(x.Rhs) {
+					rhs = x.Rhs[i]
+				}
+				g.add(vmEv{K: evAssign, Lhs: l, Rhs: rhs, Tok: x.Tok})
 			}
 		}
 		return true
@@ -133,9 +137,13 @@ func vmNewWrapperFinder(c *Ctx, fns []*vmFn, o vmBalanceOpts, skip func(fn *vmFn
 		case *ast.IncDecStmt:
 			e = vmEv{K: evIncDec, X: x.X, Tok: x.Tok}
 		case *ast.AssignStmt:
-			for _, l := range x.Lhs {
+			for i, l := range x.Lhs {
+				var rhs ast.Expr
+				if len(x.Lhs) == len(x.Rhs) {
+					rhs = x.Rhs[i]
+				}
 				for _, k := range o.counters {
-					if k.delta(fn, vmEv{K: evAssign, Lhs: l, Tok: x.Tok}) != 0 {
+					if k.delta(fn, vmEv{K: evAssign, Lhs: l, Rhs: rhs, Tok: x.Tok}) != 0 {
 						return true
 					}
 				}
@@ -355,6 +363,14 @@ func vmBalanceFn(c *Ctx, fn *vmFn, o vmBalanceOpts) []Obligation {
 
 func vmCallCounter(name string, roles *vmStackRoles) vmCounter {
 	return vmCounter{name: name, delta: func(fn *vmFn, e vmEv) int {
+		// a push / pop written out as a direct write to the stack field (the role methods themselves
+		// are never walked as units nor spliced in, so nothing is counted twice)
+		if e.K == evAssign && e.Rhs != nil && e.Lhs != nil {
+			if d, ok := vmSliceWrite(fn.info, e.Lhs, e.Rhs, roles.field); ok {
+				return d
+			}
+			return 0
+		}
 		if e.K != evCall || e.Fn == nil {
 			return 0
 		}
